@@ -19,7 +19,7 @@ Centers(Z) ==
               (y0 \oplus WMulSmall(kmax, 400)) \oplus W(401), (y0 \oplus WMulSmall(kmax, 400)) \oplus W(3)}
       near == IF Thorough THEN {y0 \oplus W(3 + 6 * i) : i \in 0..69} \cup {y0 \oplus W(801)}
               ELSE {y0 \oplus W(3), y0 \oplus W(401), y0 \oplus W(801)}
-  IN  near \cup {y \in far : y \prec YMax}
+  IN  near \cup {y \in far : y \prec YMax} \cup {UtcYear(TMax) \ominus W(2)}       \* ... and the very last years
 PanelOf(b) ==
   LET D == Decode(b) IN
   IF ~StructOk(D) THEN <<>>
